@@ -25,7 +25,7 @@ func minOf(v ssa.Value) (a, b ssa.Value, ok bool) {
 	for i := 0; i < 2; i++ {
 		p, t := ph.Block().Preds[i], ph.Block().Preds[1-i]
 		iff, isIf := p.Instrs[len(p.Instrs)-1].(*ssa.If)
-		if !isIf || len(t.Preds) != 1 || t.Preds[0] != p || len(t.Instrs) != 1 || p.Succs[0] != t {
+		if !isIf || len(t.Preds) != 1 || t.Preds[0] != p || p.Succs[0] != t {
 			continue
 		}
 		bo, isB := iff.Cond.(*ssa.BinOp)
@@ -278,7 +278,7 @@ func C11data(p *load.Program, run *report.Run) {
 			okLoop = true
 			for _, sb := range successBlocks(recv) {
 				r := sb.Instrs[len(sb.Instrs)-1].(*ssa.Return)
-				if r.Results[0] != ssa.Value(result) || !b.Succs[1].Dominates(sb) {
+				if load.Results(r)[0] != ssa.Value(result) || !b.Succs[1].Dominates(sb) {
 					okLoop = false
 				}
 			}
@@ -421,7 +421,7 @@ func errNonNilReturns(c *ssa.Call) bool {
 		for _, r2 := range *bo.Referrers() {
 			if iff, ok := r2.(*ssa.If); ok {
 				t := iff.Block().Succs[0]
-				if ret, ok := t.Instrs[len(t.Instrs)-1].(*ssa.Return); ok && ret.Results[len(ret.Results)-1] == ssa.Value(c) {
+				if ret, ok := t.Instrs[len(t.Instrs)-1].(*ssa.Return); ok && load.Results(ret)[len(load.Results(ret))-1] == ssa.Value(c) {
 					return true
 				}
 			}
